@@ -181,6 +181,27 @@ def sweep_pairs(quick):
                 yield {"sweep": "pairs", "spec": one_file_spec(n, s, e, order, dirmode=dm, **h)}
 
 
+NAME_FAMILIES = {"dots": ["KICK.1", "KICK.2", "V1.5 PAD"], "hash": ["#1", "#2", "A#B"], "plus": ["A+B", "A+C", "+"],
+                 "dash": ["A-", "B-", "-C"], "dotend": ["A.", "B.", ".C"], "digits": ["1", "2", "10"],
+                 "spaces": ["A B", "A  B", "A B C"], "long12": ["ABCDEFGHIJKL", "ABCDEFGHIJKM", "ABCDEFGHIJ.L"]}
+VOL_NAMES = ["VOL", "VOL 1.5", "V.", "#+-."]
+
+
+def sweep_names(quick):
+    """every character an AKAI name can hold besides letters, in the positions where naming code treats it specially;
+    judged by content only (one file per sample with exactly its audio) -- which names are chosen is C06's business"""
+    for fam in sorted(NAME_FAMILIES):
+        for vname in VOL_NAMES:
+            files, sec = [], 4
+            for k, (nm, n) in enumerate(zip(NAME_FAMILIES[fam], (300, 4200, 50))):
+                m = A.needed_sectors(140 + 2 * n)
+                files.append({"name": nm, "n": n, "chain": list(range(sec, sec + m))[::-1], "seq": k + 1,
+                              "rate": [44100, 22050, 32000][k]})
+                sec += m
+            yield {"sweep": "names", "family": fam,
+                   "spec": {"parts": [{"vols": [{"name": vname, "dir": [3], "files": files}]}]}}
+
+
 def nontrivial(spec):
     if len(spec["parts"]) > 1:
         return True
@@ -208,6 +229,19 @@ def run_case(case):
         return False, "hang", {"observed": "non-termination (cpu budget)"}
     if res["status"] == "exc":
         return False, "raised:" + exc_sig(res["exc"]), {"observed": repr(res["exc"])[:300], "files": sorted(res["files"])[:5]}
+    if case["sweep"] == "names":
+        from mcv.ref import riff
+        got = []
+        for p_, b_ in res["files"].items():
+            w = riff.validate(b_)
+            if w.errors:
+                return False, "invalid-wav", {"path": p_, "errors": w.errors[:2]}
+            got.append((w.fmt["channels"], w.fmt["rate"], w.data))
+        want = sorted(expected.values())
+        if sorted(got) != want or len(res["reported"]) != len(want):
+            return False, "names:samples-lost-or-changed", {"samples": sorted(expected), "files": sorted(res["files"]),
+                                                            "reported": res["reported"]}
+        return True, f"ok-by-content:{len(want)}files", None
     errs = tree.compare_export(expected, res["files"], res["reported"])
     if errs:
         kind = "pathset" if "path sets" in errs[0] else ("pcm" if "pcm differs" in errs[0] else "wav")
@@ -226,14 +260,15 @@ class Check(CheckBase):
             "2-sector directory]; (length) boundary word counts x start/end markers x chain order; (header) rate x "
             "sample id x file type x volume type; (sizes) every partition size 6..139 sectors (thorough ..399), alternately followed by a second partition; (slack) chains longer than the file needs x order x markers; (structure) partitions{1,2,3} x volumes{0,1,2} x files{0..3} x "
             "volume type x directory storage, L/R pair, non-sample siblings, trailing bytes; (pairs) all pairs of "
-            "single deviations. non-trivial = non ascending-contiguous multi-sector chain, or file filling its last "
+            "single deviations; (names) 8 families of names using the non-letter characters of the AKAI set (. # + - digits "
+            "blanks, 12 characters) x 4 volume names, judged by content only. non-trivial = non ascending-contiguous multi-sector chain, or file filling its last "
             "sector exactly, or >1 partition/volume")
     assumptions = ["independent AKAI writer (mcv/gen/akai.py) and RIFF walker are correct",
                    "names are plain and collision-free here (collisions: C05/C06)"]
 
     def shards(self):
         cases = []
-        for sw in (sweep_length, sweep_slack, sweep_sizes, sweep_header, sweep_structure, sweep_pairs, sweep_alloc):
+        for sw in (sweep_length, sweep_slack, sweep_sizes, sweep_header, sweep_structure, sweep_pairs, sweep_alloc, sweep_names):
             cases.extend(sw(self.quick))
         self._n = len(cases)
         return self.chunk(cases, 24)
